@@ -215,7 +215,17 @@ def c_string(ctx, case):
     # importer
     ctx.count("importer_calls")
     try:
-        imp = ASTToPymbolic()(ast.parse(s, mode="eval").body)
+        node = ast.parse(s, mode="eval")
+        before = ast.dump(node)
+        imp = ASTToPymbolic()(node.body)
+        # "Python's parse of the same string" is the caller's: the importer reads it, so that
+        # a second import of the same ast object (same or another importer) gives the same tree
+        imp2 = ASTToPymbolic()(node.body)
+        ctx.count("importer_second_import_of_same_ast")
+        if ast.dump(node) != before or not normal.typed_eq(imp, imp2):
+            ctx.fail("C07.string", case, f"importer-modified-ast:{_opsig(s)}",
+                     f"{s!r}: importing Python's ast changed it: {before} became {ast.dump(node)}; "
+                     f"first import {imp!r}, second import of the same object {imp2!r}")
     except NotImplementedError:
         ctx.count("importer_refused")
         if not importer_may_refuse(s):
